@@ -178,6 +178,8 @@ func (x Expr) GetNodes(n gen.Node) (results []gen.Node) {
 					}
 				}
 			} else {
+				// A sibling that shares the marker has to be expanded as well.
+				stack[len(stack)-1] = di &^ descentFlag
 				if fi == index(len(x))-1 { // last one
 					if top {
 						results = append(results, prev)
@@ -487,6 +489,8 @@ func (x Expr) FirstNode(n gen.Node) (result gen.Node) {
 					}
 				}
 			} else {
+				// A sibling that shares the marker has to be expanded as well.
+				stack[len(stack)-1] = di &^ descentFlag
 				stack = append(stack, prev)
 			}
 		case Root:
